@@ -11,9 +11,9 @@ var commonAssume = []string{
 }
 
 var gbBounds = map[string]string{
-	"connections":  "2 existing + 2 fresh identities, plus one retired connection per slot",
-	"slots":        "3 subConnRef objects, channel list = any prefix of them",
-	"keys":         "2 symbolic bound/unbound keys + 1 key in no table; 0..2 keys per message",
+	"connections":  "quick: 2 existing + 2 fresh identities, plus one retired connection per slot; thorough additionally 3 existing + 2 fresh",
+	"slots":        "quick: 3 subConnRef objects; thorough additionally 4; channel list = any prefix of them",
+	"keys":         "quick: 2 symbolic bound/unbound keys, thorough additionally 3; + 1 key in no table; 0..2 keys per message",
 	"pickers":      "the picker the call is issued on (published or stale, any duplicate-free list of listed slots) and one other published picker",
 	"config":       "minSize, maxSize, watermark, unresponsive_calls, unresponsive_detection_ms full 32-bit symbolic (>=1 where the balancer's defaults guarantee it); fallback symbolic",
 	"streams":      "0 <= streamsCnt < 2^30 per slot",
@@ -68,8 +68,28 @@ func allProps() []Prop {
 	cnt := one("VerifH_cnt")
 	errpick := one("VerifH_errpick")
 	reserr := one("VerifH_reserr")
-	allGb := cat(initJ, cnt, usc, uccs, reserr, errpick, pick, pickRR, done, rr, rrwin)
-
+	keysJobs := cat(
+		caseJobs("VerifH_keys", map[string][]int{"msgKind": {0}, "nseg": {1, 2, 3, 4}}, []string{"msgKind", "nseg"}, "realKeys"),
+		caseJobs("VerifH_keys", map[string][]int{"msgKind": {1, 2, 3}, "nseg": {1, 2}}, []string{"msgKind", "nseg"}, "realKeys"),
+		one("VerifH_keysloc", "realKeys"))
+	// thorough tier: the same operations over the larger universe (3+2 connections, 4 slots, 3 keys)
+	big := func(js []Job) []Job {
+		var out []Job
+		for _, j := range js {
+			nj := j
+			nj.Flags = append(append([]string{}, j.Flags...), "big")
+			nj.Tier = "thorough"
+			nj.TmoMs = 120000
+			out = append(out, nj)
+		}
+		return out
+	}
+	uscB := big(caseJobs("VerifH_usc", map[string][]int{"arg_sc": {0, 1, 2, 3, 4}}, []string{"arg_sc"}))
+	doneB := big(caseJobs("VerifH_done", map[string][]int{"method": {0, 1, 2, 3}, "on": {0, 1, 2, 3}}, []string{"method", "on"}, "havoc"))
+	pickB, pickRRB, uccsB, rrB, rrwinB, growB, reserrB, errpickB := big(pick), big(pickRR), big(uccs), big(rr), big(rrwin), big(grow), big(reserr), big(errpick)
+	usc, done, pick, pickRR, uccs = cat(usc, uscB), cat(done, doneB), cat(pick, pickB), cat(pickRR, pickRRB), cat(uccs, uccsB)
+	rr, rrwin, grow, reserr, errpick = cat(rr, rrB), cat(rrwin, rrwinB), cat(grow, growB), cat(reserr, reserrB), cat(errpick, errpickB)
+	allGb := cat(initJ, cnt, usc, uccs, reserr, errpick, pick, pickRR, done, rr, rrwin, grow)
 	const me = "grpcgcp/multiendpoint"
 	meBounds := map[string]string{
 		"endpoints":  "universe {A,B,C} + one unknown name; lists of 0..3 distinct names",
@@ -100,10 +120,6 @@ func allProps() []Prop {
 	}
 	ckBounds := map[string]string{"payload": "standard encoding of 0..4 (quick) / 0..16 (thorough) arbitrary bytes; all 2^32 checksum values", "loop unroll": "20"}
 	ckJobs := []Job{{Dir: "e2e-checksum", Harness: "e2e-checksum", Entry: "VerifH_ck", Unroll: 20}}
-	keysJobs := cat(
-		caseJobs("VerifH_keys", map[string][]int{"msgKind": {0}, "nseg": {1, 2, 3, 4}}, []string{"msgKind", "nseg"}, "realKeys"),
-		caseJobs("VerifH_keys", map[string][]int{"msgKind": {1, 2, 3}, "nseg": {1, 2}}, []string{"msgKind", "nseg"}, "realKeys"),
-		one("VerifH_keysloc", "realKeys"))
 	keysBounds := map[string]string{
 		"type family": "vTop{Id string; Mid *vMid; Mids []*vMid; Leaf vLeaf}, vMid{Key string; In *vLeaf; Items []*vLeaf; Vals []vLeaf; Names []string; Nums []int64; Any interface{} (nil | string | *vLeaf | vLeaf); M map[string]string}, vLeaf{Name string; Num int64; Flag bool; hidden string}; every pointer possibly nil; slices of 0..2; plus nil / string / []string messages, the harness message type and generated pb.AffinityConfig / pb.MethodConfig",
 		"locator":     "path of 1..4 segments, each a symbolic choice among the field names in either case, an unknown name, the empty segment (strings.Split is exercised separately on 7 constant locators)",
@@ -175,7 +191,7 @@ func allProps() []Prop {
 		{ID: "C02", Jobs: cat(usc, uccs, pick, done, rr, rrwin), Assume: commonAssume, Bounds: gbBounds},
 		{ID: "C03", Jobs: cat(initJ, usc, uccs, pick, done, grow), Assume: commonAssume, Bounds: gbBounds},
 		{ID: "C04", Jobs: cat(cnt, initJ, usc, errpick, pick, done), Assume: commonAssume, Bounds: gbBounds},
-		{ID: "C05", Jobs: allGb, Panics: true, Assume: commonAssume, Bounds: gbBounds},
+		{ID: "C05", Jobs: cat(allGb, keysJobs), Panics: true, Assume: commonAssume, Bounds: gbBounds},
 		{ID: "C06", Jobs: allGb, Progress: true, Assume: commonAssume, Bounds: gbBounds},
 		{ID: "C07", Jobs: cat(initJ, usc, done), Assume: commonAssume, Bounds: gbBounds},
 		{ID: "C08", Jobs: cat(usc, pick, done), Assume: commonAssume, Bounds: gbBounds},
